@@ -33,6 +33,16 @@ BENIGN = [
  ('add_step_reordered', D + 'variables.rs', '        self.x.axpby(α, &step.x, T::one());\n        self.s.axpby(α, &step.s, T::one());\n        self.z.axpby(α, &step.z, T::one());\n        self.τ += α * step.τ;\n        self.κ += α * step.κ;', '        self.κ += step.κ * α;\n        self.τ += step.τ * α;\n        self.z.axpby(α, &step.z, T::one());\n        self.s.axpby(α, &step.s, T::one());\n        self.x.axpby(α, &step.x, T::one());'),
  ('nn_step_length_temps', R + 'core/cones/nonnegativecone.rs', '            if dz[i] < T::zero() {\n                αz = T::min(αz, -z[i] / dz[i]);\n            }', '            if dz[i] < T::zero() {\n                let ratio = -z[i] / dz[i];\n                αz = T::min(ratio, αz);\n            }'),
  ('check_dims_reordered', D + 'solver.rs', '    assert!(n == A.ncols(), "A and q incompatible dimensions.");\n    assert!(n == P.ncols(), "P and q incompatible dimensions.");', '    assert!(n == P.ncols(), "P and q incompatible dimensions.");\n    assert!(A.ncols() == n, "A and q incompatible dimensions.");'),
+ ('shift_strict_test', D + 'variables.rs', '    if min_margin <= T::zero() {\n        // at least', '    if min_margin < T::zero() {\n        // at least'),
+ ('shift_circ_operands', R + 'core/cones/symmetric_common.rs', 'self.circ_op(shift, step_s, step_z);', 'self.circ_op(shift, step_z, step_s);'),
+ ('nn_mul_W_commuted', R + 'core/cones/nonnegativecone.rs', 'y[i] = α * (x[i] * self.w[i]) + β * y[i];', 'y[i] = β * y[i] + α * (self.w[i] * x[i]);'),
+ ('soc_mul_Hs_two_first', R + 'core/cones/socone.rs', 'let c = self.w.dot(x) * (2.).as_T();', 'let two: T = (2.).as_T();\n        let c = two * x.dot(&self.w);'),
+ ('psd_T_arm_reassociated', R + 'core/cones/psdtrianglecone.rs', '            tmp.mul(X, &Rx.t(), T::one(), T::zero());\n            Y.mul(Rx, tmp, α, β);', '            tmp.mul(Rx, X, T::one(), T::zero());\n            Y.mul(tmp, &Rx.t(), α, β);'),
+ ('soc_sparse_v_scale_positive', Q + 'datamaps.rs', 'scaleFcn(ldl, K, &map.v, -η2);', 'scaleFcn(ldl, K, &map.v, η2);'),
+ ('soc_w0_norm_method', R + 'core/cones/socone.rs', 'w[0] = T::sqrt(T::one() + w1sq);', 'w[0] = (w1sq + T::one()).sqrt();'),
+ ('soc_identity_reordered', R + 'core/cones/socone.rs', '            sparse_data.d = (0.5).as_T();\n            sparse_data.u.fill(T::zero());\n            sparse_data.u[0] = T::FRAC_1_SQRT_2();\n            sparse_data.v.fill(T::zero());', '            sparse_data.v.fill(T::zero());\n            sparse_data.u.fill(T::zero());\n            sparse_data.u[0] = T::FRAC_1_SQRT_2();\n            sparse_data.d = (0.5).as_T();'),
+ ('composite_symmetric_first', R + 'core/cones/compositecone.rs', '                if cone.is_symmetric() == symcond {\n                    continue;\n                }\n                let (dzi, dsi)', '                if cone.is_symmetric() != symcond {\n                    continue;\n                }\n                let (dzi, dsi)'),
+ ('composite_skip_ne', R + 'core/cones/compositecone.rs', None, None),  # handled specially: != and swapped flags
  ('refactor_comment_and_let', 'src/qdldl/qdldl.rs', '        self.is_symbolic = false;\n        _factor(', '        self.is_symbolic = false;\n        let _n = self.D.len();\n        _factor('),
 ]
 
@@ -54,6 +64,12 @@ def special(name, src):
         new = ('            if !self.cones.is_symmetric() {\n                // Assigns unit (z,s) and zeros the primal variables\n'
                '                self.variables.unit_initialization(&self.cones);\n            } else {\n' + sym + '            }\n        }\n\n')
         return src[:a] + new + src[b:]
+    if name == 'composite_skip_ne':
+        # select instead of skip, and swap the flags: exactly the same cones in exactly the same order
+        src = src.replace('                if cone.is_symmetric() == symcond {\n                    continue;\n                }\n                let (dzi, dsi)',
+                          '                if cone.is_symmetric() != symcond {\n                    continue;\n                }\n                let (dzi, dsi)')
+        src = src.replace('        α = innerfcn(α, true);', '        α = innerfcn(α, FIRSTFLAG);').replace('        α = innerfcn(α, false);', '        α = innerfcn(α, true);')
+        return src.replace('innerfcn(α, FIRSTFLAG)', 'innerfcn(α, false)')
     raise KeyError(name)
 
 
